@@ -87,18 +87,22 @@ func (b *Broker) send(ctx context.Context, id string, responder chan map[string]
 	if len(result) == 0 {
 		return false
 	}
-	responder <- result
 	// the heartbeat outlives the request that triggers it: a request context (net/http's, the
 	// mock transport's) ends as soon as the reply has been delivered, and the client would be
 	// taken offline at once although it polls again immediately
 	ctx = context.Background()
-	go b.doHeartBeat(ctx, id)
+	// it is armed before the batch is handed over: the client's next poll, which disarms it,
+	// may arrive before a goroutine started after the hand-over has run
+	signal := b.armHeartBeat(id)
+	responder <- result
+	go b.doHeartBeat(ctx, id, signal)
 	return true
 }
 
-func (b *Broker) doHeartBeat(ctx context.Context, id string) {
+// armHeartBeat registers the signal that the client's next poll closes.
+func (b *Broker) armHeartBeat(id string) chan bool {
 	if b.HeartBeat <= 0 {
-		return
+		return nil
 	}
 	signal := make(chan bool, 1)
 	b.signals.Upsert(id, signal, func(exist bool, valueInMap interface{}, newValue interface{}) interface{} {
@@ -107,6 +111,13 @@ func (b *Broker) doHeartBeat(ctx context.Context, id string) {
 		}
 		return newValue
 	})
+	return signal
+}
+
+func (b *Broker) doHeartBeat(ctx context.Context, id string, signal chan bool) {
+	if b.HeartBeat <= 0 {
+		return
+	}
 	ctx, cancel := context.WithTimeout(ctx, b.HeartBeat)
 	defer cancel()
 	select {
@@ -243,7 +254,7 @@ func (b *Broker) message(ctx context.Context) map[string][]Message {
 						runtime.Gosched()
 					}
 				}
-				go b.doHeartBeat(context.Background(), id)
+				go b.doHeartBeat(context.Background(), id, b.armHeartBeat(id))
 				return map[string][]Message{}
 			case result := <-responder:
 				return result
